@@ -226,7 +226,7 @@ def strat_clean(draw, tier):
             "mask_value": draw(st.one_of(st.none(), st.integers(0, (1 << min(nbits, 8)) - 1))) if nbits < 32
             else draw(st.one_of(st.none(), st.sampled_from([0, 7, -1.5, -300.0, 2.5, 1e6, -1e-3]))),
             "baseline": draw(st.sampled_from([100.0, 100.0, -50.0, 0.0])),
-            "gulp": draw(st.integers(1, eff + 3)), "start": start, "nsamps": nsamps,
+            "gulp": draw(st.integers(1, eff + 3)), "start": start, "nsamps": nsamps, "prior": draw(vs.prior_use(N)),
             "fch1": 1400.0, "foff": draw(st.sampled_from([-1.0, -0.1, 0.5]))}
 
 
@@ -266,7 +266,7 @@ def check_clean(case, ctx):
     ctxt = {k: case[k] for k in ("nbits", "nchans", "split", "method", "thr", "f", "mask_value", "gulp", "start", "nsamps", "seed", "noisy")}
 
     def run(gulp, name):
-        rd = FilReader(paths)
+        rd = vs.apply_prior_use(FilReader(paths), case.get("prior"))
         rr = None if case["ranges"] is None else resolve_ranges(case["ranges"], rd.header.chan_freqs)
         fn = None if case["f"] is None else FUNCS[case["f"]]
         with warnings.catch_warnings():
